@@ -15,6 +15,30 @@ pub mod simd {
     }
     include!("suite.rs");
 }
+/// the same with `glam-assert` compiled in: whether an assertion fires is an outcome like any other, and must not
+/// depend on the padding lane either (half of the volume)
+#[cfg(not(feature = "core"))]
+pub mod simd_asserting {
+    pub const VARIANT: &str = "simd+glam-assert";
+    use ::glam_assert as glam;
+    include!(concat!(env!("CARGO_MANIFEST_DIR"), "/../apisupport/api_support.rs"));
+    include!(concat!(env!("CARGO_MANIFEST_DIR"), "/../gen/api_table_sse2.rs"));
+    pub fn raw_inject(x: f32, y: f32, z: f32, h: u32) -> Vec3A {
+        Vec3A::from(unsafe { core::arch::x86_64::_mm_set_ps(f32::from_bits(h), z, y, x) })
+    }
+    include!("suite.rs");
+}
+#[cfg(feature = "core")]
+mod core_asserting {
+    pub const VARIANT: &str = "core+glam-assert";
+    use ::glam_core_assert as glam;
+    include!(concat!(env!("CARGO_MANIFEST_DIR"), "/../apisupport/api_support.rs"));
+    include!(concat!(env!("CARGO_MANIFEST_DIR"), "/../gen/api_table_coresimd.rs"));
+    pub fn raw_inject(x: f32, y: f32, z: f32, h: u32) -> Vec3A {
+        Vec3A::from(core::simd::f32x4::from_array([x, y, z, f32::from_bits(h)]))
+    }
+    include!("suite.rs");
+}
 #[cfg(feature = "core")]
 mod core_simd {
     pub const VARIANT: &str = "core";
@@ -32,8 +56,14 @@ fn main() {
     let args = Args::parse();
     let mut subs = vec![];
     #[cfg(not(feature = "core"))]
-    subs.extend(simd::subs(&args));
+    {
+        subs.extend(simd::subs(&args));
+        subs.extend(simd_asserting::subs(&args).into_iter().map(|s| s.with_div(2)));
+    }
     #[cfg(feature = "core")]
-    subs.extend(core_simd::subs(&args));
+    {
+        subs.extend(core_simd::subs(&args));
+        subs.extend(core_asserting::subs(&args).into_iter().map(|s| s.with_div(2)));
+    }
     std::process::exit(main_with("C08", "", &args, subs));
 }
